@@ -68,7 +68,7 @@ def cases(ctx):
         r = ctx.rng("C04g3", j)
         c = gen.rand_circuit(r, n_in=r.randint(1, 4), n_gates=r.randint(2, 9), max_fanin=4, consts=0.4, out_is_input=0.35, loaded_in_out=0.15)
         p = proj(c)
-        kind = r.choice(["self", "copy", "mut", "mut", "lf"])
+        kind = r.choice(["self", "copy", "mut", "mut", "lf", "swap", "swap"])
         if kind == "self":
             pairs.append((p, None, "G3self"))
         elif kind == "copy":
@@ -77,6 +77,21 @@ def cases(ctx):
             q = mutate_gate(p, r)
             if q:
                 pairs.append((p, q, "G3mut"))
+        elif kind == "swap":
+            # the same port name is a primary input in one circuit and gate-driven (or a fed-through input) in the other
+            q = copy.deepcopy(p)
+            ins = [i for i, t in enumerate(q["ty"]) if t == "input"]
+            if len(ins) >= 2:
+                i = r.choice(ins)
+                j = r.choice([x for x in ins if x != i])
+                # in q, input i becomes not(j): re-index so that the order stays topological
+                g = build(q)
+                nm, src = q["names"][i], q["names"][j]
+                g.graph.nodes[nm]["type"] = r.choice(["not", "buf"])
+                g.graph.add_edge(src, nm)
+                if r.random() < 0.5:
+                    g.graph.nodes[nm]["output"] = True
+                pairs.append((p, proj(g), "G3swap") if r.random() < 0.5 else (proj(g), p, "G3swap"))
         else:
             pairs.append((p, "limit_fanin", "G3lf"))
     for k, (p0, p1, src) in enumerate(pairs):
@@ -100,13 +115,13 @@ def cases(ctx):
 def run_case(case, ctx):
     import circuitgraph as cg
 
-    c0 = build(case["c0"])
+    c0 = build(case["c0"], case.get("ord"))
     if case["c1"] == "limit_fanin":
         c1 = cg.tx.limit_fanin(c0, 2)
     elif case["c1"] is None:
         c1 = None
     else:
-        c1 = build(case["c1"])
+        c1 = build(case["c1"], case.get("ord"))
     S, E = case["S"], case["E"]
     exc, m = "", None
     try:
